@@ -320,6 +320,27 @@ class IG:
             return [desc]
         return [desc]
 
+    def expand_cond(self, atom, pol):
+        """normalise a branch condition: strip negations and look through
+        inlined predicate helpers that have a single return expression"""
+        for _ in range(8):
+            atom, pol = cond_atoms(atom, pol)
+            if isinstance(atom, dict) and atom.get("k") == "e" and "fr" in atom and not atom.get("lab"):
+                child = self.frames[atom["fr"]].children.get(atom["id"])
+                if child is not None:
+                    rets = [n for n in child.ev_node.values() if n.ev["e"] == "ret" and "v" in n.ev]
+                    if len(rets) == 1:
+                        atom = self.resolve(rets[0].ev["v"], child)
+                        continue
+            if isinstance(atom, dict) and atom.get("k") == "l" and "fr" in atom:
+                # a bool local with a single definition
+                defs = self.local_defs(self.frames[atom["fr"]], atom["id"])
+                if len(defs) == 1 and defs[0][1] is not None:
+                    atom = defs[0][1]
+                    continue
+            break
+        return atom, pol
+
     def ev_of(self, desc):
         """node of an event-reference descriptor"""
         if isinstance(desc, dict) and desc.get("k") == "e" and "fr" in desc:
